@@ -15,7 +15,9 @@ WRAPF  := $(foreach w,$(WRAPS),-Wl,--wrap=$(w))
 # in-process properties / properties under the deterministic scheduler (DST)
 PURE   := C17 C19 C18
 DST    := C05 C15 C06 C08 C09 C04 C07
-ALL    := $(PURE) $(DST)
+# DST + short-transfer injection on the stream syscalls
+DSTIO  := C01
+ALL    := $(PURE) $(DST) $(DSTIO)
 
 all: $(addprefix $(B)/bin/,$(ALL))
 
@@ -43,6 +45,9 @@ $(B)/bin/C18: $(B)/obj/shim_core.o
 DSTOBJ := $(B)/obj/vsched.o $(B)/obj/nngh.o $(B)/obj/rawpeer.o
 $(addprefix $(B)/bin/,$(DST)): EXTRA = $(DSTOBJ) $(WRAPF)
 $(addprefix $(B)/bin/,$(DST)): $(DSTOBJ)
+IOWRAPF := -Wl,--wrap=readv -Wl,--wrap=writev -Wl,--wrap=sendmsg -Wl,--wrap=send
+$(addprefix $(B)/bin/,$(DSTIO)): EXTRA = $(DSTOBJ) $(B)/obj/iowrap.o $(WRAPF) $(IOWRAPF)
+$(addprefix $(B)/bin/,$(DSTIO)): $(DSTOBJ) $(B)/obj/iowrap.o
 
 $(B)/bin/%: $(B)/obj/%.o $(B)/obj/caseio.o $(LIBNNG)
 	@mkdir -p $(B)/bin
